@@ -1489,6 +1489,14 @@ class UnitBuilder:
                 raise Undecided(f"lost anchor: match arm #{k} with a block body in {fnq}")
             j = sites[k - 1] + 2
             return body[j:match_close(body, j) + 1]
+        m = re.match(r"^arm_tail (\d+) after_let (\w+)(?:#(\d+))?$", anchor)
+        if m:
+            # the statements of the K-th block-bodied match arm that follow its `let NAME` statement (braces excluded)
+            blk = self.cut_fragment(body, f"arm_block {m.group(1)}", fnq)
+            _, _, semi = find_let(blk, m.group(2), int(m.group(3) or 1))
+            if semi + 1 >= len(blk) - 1:
+                raise Undecided(f"lost anchor: nothing follows let {m.group(2)} in match arm #{m.group(1)} of {fnq}")
+            return blk[semi + 1:len(blk) - 1]
         m = re.match(r"^let_init (\w+)(?:#(\d+))?$", anchor)
         if m:
             _, lo, semi = find_let(body, m.group(1), int(m.group(2) or 1))
